@@ -1,4 +1,5 @@
 import OjgVerif.Match.LemmasSel
+import OjgVerif.Match.LemmasSpec
 /-! # C17 — streaming Match equals parse-then-locate
 
 `matchRun dv targets (events doc)` are the callbacks of the `MatchHandler` model (Match/Model.lean)
@@ -144,6 +145,27 @@ theorem C17_fixed (targets : List Target) (doc : JV) (hdoc : NoDupKeys doc = tru
     (hok : ∀ t ∈ targets, okTarget Dev.fixed t = true) :
     matchRun Dev.fixed targets (events doc) = expected targets doc :=
   C17_general Dev.fixed targets doc hdoc hok
+
+/-- what the right-hand side says, without the enumeration: (path, value) is expected iff the path
+exists in the document with that value, some target selects it, and no target selects a proper
+prefix of it -/
+theorem expected_characterised (targets : List Target) (doc : JV) (h : NoDupKeys doc = true) (q : NPath) (u : JV) :
+    (q, u) ∈ expected targets doc ↔
+      nav doc q = some u ∧ selectedBy targets doc q = true ∧
+        ∀ q' ∈ properPrefixes q, selectedBy targets doc q' = false :=
+  mem_expected_iff targets doc h q u
+
+/-- "once": no location is expected twice -/
+theorem expected_once (targets : List Target) (doc : JV) (h : NoDupKeys doc = true) :
+    ((expected targets doc).map (·.1)).Nodup :=
+  expected_nodup targets doc h
+
+/-- hence, for supported targets, the handler calls back once per outermost selected location -/
+theorem callbacks_once (dv : Dev) (targets : List Target) (doc : JV) (hdoc : NoDupKeys doc = true)
+    (hok : ∀ t ∈ targets, okTarget dv t = true) :
+    ((matchRun dv targets (events doc)).map (·.1)).Nodup := by
+  rw [C17_general dv targets doc hdoc hok]
+  exact expected_once targets doc hdoc
 
 /-! non-trivial instances of the hypotheses -/
 
